@@ -60,6 +60,18 @@ mod verif_bounded_strings {
                     Ok(_) => {}
                 }
             }
+            // a SECOND tag of the same kind that contradicts the valid first one makes the event ambiguous: refused (F29)
+            if let Some(wrong) = bad.iter().find(|v| !v.is_empty()) {
+                let valid_first: Vec<Tag> = base.tags.iter().filter(|t| t.kind() == kind).cloned().collect();
+                let mut both = valid_first.clone(); both.push(Tag::custom(kind.clone(), wrong.clone()));
+                let ev = rebuilt(&base, &keys, &kind, both);
+                let scen = format!("a valid key-package event with a SECOND `{name}` tag carrying the values {wrong:?} after the valid one");
+                match catch_unwind(AssertUnwindSafe(|| mdk.parse_key_package(&ev).is_ok())) {
+                    Err(_) => fail(label, &scen, "parse_key_package PANICKED"),
+                    Ok(true) => fail(label, &scen, "parse_key_package accepted the event (only the first tag of a kind is looked at)"),
+                    Ok(false) => {}
+                }
+            }
             // the tag missing altogether is refused
             let ev = rebuilt(&base, &keys, &kind, vec![]);
             match catch_unwind(AssertUnwindSafe(|| mdk.parse_key_package(&ev).is_ok())) {
